@@ -31,7 +31,15 @@ ASSUMPTIONS = {
 
 
 def _content(rng):
-    kind = gen.weighted(rng, [(2, "tiny"), (3, "sniff"), (3, "read"), (2, "crlf"), (2, "head_tail"), (2, "rand")])
+    kind = gen.weighted(rng, [(2, "tiny"), (3, "sniff"), (3, "read"), (2, "crlf"), (2, "head_tail"), (2, "rand"), (3, "ratio")])
+    if kind == "ratio":
+        # first 512 bytes with k non-text bytes around the 30% threshold (153.6), no NUL, CRLFs inside
+        k = rng.choice([150, 152, 153, 154, 155, 156, 157, 158, 159, 160])
+        n = rng.choice([512, 512, 600, 400])
+        k = min(k, n)
+        body = [b"\x01"] * k + [b"a"] * (n - k - 8) + [b"\r\n"] * 4
+        rng.shuffle(body)
+        return b"".join(body)[:n] + rng.choice([b"", b"tail\r\nmore\r\n"])
     if kind == "tiny":
         return rng.choice([b"", b"x", b"\n", b"\r\n", b"\r", b"\x00"])
     if kind == "sniff":
@@ -114,6 +122,8 @@ def execute(sc, ctx):
     def consume(stream, sizes):
         out = []
         while True:
+            if crng.random() < 0.2:
+                stream.hash_value  # looking at the running digest must not disturb it
             n = crng.choice(sizes)
             b = stream.read(n)
             if not b:
@@ -157,6 +167,8 @@ def execute(sc, ctx):
             src = SimReader(d, srng, short=False)
             hs = get_hash_stream(src, name="md5-dos2unix")
             assert isinstance(hs, Dos2UnixHashStreamFile)
+            if crng.random() < 0.5:
+                hs.hash_value  # a look-up on the fresh stream
             out = []
             while True:
                 b = hs.read(max(2**20, 512))
